@@ -1225,6 +1225,11 @@ class Interp:
             ex = [n for n in cands if n.split('::')[-2:] == segs[-2:]]
             if len(ex) == 1:
                 return ex[0]
+            # re-export: the public path is a prefix of the definition's module path (json::x  ->  json::de::client::x)
+            pre = '::'.join(segs[:-1]) + '::'
+            ex = [n for n in cands if n.startswith(pre)]
+            if len(ex) == 1:
+                return ex[0]
         return None
 
     def canon_ty(self, crate, t):
